@@ -359,13 +359,29 @@ func c17BuildNode(w *World, op TxOp, v TxView, _ signature.Signer, fee *transact
 			weights = append(weights, 2)
 		}
 	}
-	ref := ss.nodes[rr.Pick(weights)]
-	nid := ref.ID.Public()
-	epoch := v.Epoch()
 	ents, err := st.Entities(ctx)
 	if err != nil || len(ents) == 0 {
 		return nil, nil, nil
 	}
+	ref := ss.nodes[rr.Pick(weights)]
+	if rr.Chance(3, 4) {
+		// Prefer a node that some registered entity lists (otherwise most registrations fail on
+		// the node-list rule alone).
+		var listed []*c17NodeRef
+		for _, x := range ss.nodes {
+			for _, e := range ents {
+				if e.HasNode(x.ID.Public()) {
+					listed = append(listed, x)
+					break
+				}
+			}
+		}
+		if len(listed) > 0 {
+			ref = listed[rr.Intn(len(listed))]
+		}
+	}
+	nid := ref.ID.Public()
+	epoch := v.Epoch()
 	var cur *node.Node
 	if c, err := st.Node(ctx, nid); err == nil {
 		cur = c
